@@ -151,6 +151,52 @@ SelfShapes == {
   "local x = 1 local function g() x = x + 1 return x end local x = g() ext1(x, g())" }
 ScopeShapes(tier) == UNION {BinderShapes(u) : u \in OuterUses(tier)} \cup SelfShapes
 
+\* ---- shadow shapes: a GLOBAL name that a rule watches (math of convert_square_root_call, assert / debug of the removal
+\* rules, the injected identifier and _G of inject_global_value) shadowed by every binder kind -- and, above all, used again
+\* AFTER an inner scope that re-declared it has closed (the outer declaration is visible again, or the global is).  g = the
+\* name, m1 / m2 = two mock values that log when used, u = a statement that uses the name the way the rule looks for it.
+Shadow(g, m1, m2, u) == {
+  "local " \o g \o " = " \o m1 \o " " \o u,
+  "local " \o g \o " = " \o m1 \o " do local " \o g \o " = " \o m2 \o " " \o u \o " end " \o u,
+  "do local " \o g \o " = " \o m1 \o " " \o u \o " end " \o u,
+  "local function h(" \o g \o ") " \o u \o " end h(" \o m1 \o ") " \o u,
+  "local " \o g \o " = " \o m1 \o " local function h(" \o g \o ") return 1 end ext1(h(2)) " \o u,
+  "local " \o g \o " = " \o m1 \o " local h = function(...) local " \o g \o " = ... return 1 end ext1(h(3)) " \o u,
+  "local " \o g \o " = " \o m1 \o " for " \o g \o " = 1, 1 do end " \o u,
+  "for " \o g \o " = 1, 1 do end " \o u,
+  It \o "local " \o g \o " = " \o m1 \o " for " \o g \o " in it, 1, 0 do end " \o u,
+  "local " \o g \o " = " \o m1 \o " local function h() " \o u \o " end h()",
+  "local function h() local " \o g \o " = " \o m1 \o " " \o u \o " end h() " \o u,
+  "if true then local " \o g \o " = " \o m1 \o " " \o u \o " end " \o u,
+  "local " \o g \o " = " \o m1 \o " if true then local " \o g \o " = " \o m2 \o " end " \o u,
+  "local " \o g \o " = " \o m1 \o " while true do local " \o g \o " = " \o m2 \o " break end " \o u,
+  "local " \o g \o " = " \o m1 \o " repeat local " \o g \o " = " \o m2 \o " until true " \o u,
+  "local " \o g \o " = " \o m1 \o " do do local " \o g \o " = " \o m2 \o " end " \o u \o " end",
+  "local " \o g \o " = " \o m1 \o " do local " \o g \o " = " \o m2 \o " end do " \o u \o " end",
+  "local o = {} function o:m(" \o g \o ") return 1 end local " \o g \o " = " \o m1 \o " " \o u,
+  "local " \o g \o " = " \o m1 \o " local o = {} function o:m(" \o g \o ") return 1 end " \o u,
+  "local " \o g \o " " \o g \o " = " \o m1 \o " " \o u }
+MathMock == "{sqrt = function(x) ext1(x) return 7 end}"
+MathMock2 == "{sqrt = function(x) return 8 end}"
+AssertMock == "function(...) ext1(\"mock\", ...) return 9 end"
+AssertMock2 == "function(...) return 8 end"
+DebugMock == "{profilebegin = function(x) ext1(\"mock\", x) end, profileend = function() ext1(\"mockend\") end}"
+DebugMock2 == "{profilebegin = function() end, profileend = function() end}"
+GMock == "{INJ = ext1(7), assert = function(...) ext1(\"mock\", ...) end}"
+GMock2 == "{INJ = 8, assert = function() end}"
+ShadowShapes(group) ==
+  IF group = "c16" THEN Shadow("math", MathMock, MathMock2, "ext1(math.sqrt(16))")
+  ELSE IF group = "c17" THEN
+         Shadow("assert", AssertMock, AssertMock2, "assert(extf(), ext1(2))")
+    \cup Shadow("debug", DebugMock, DebugMock2, "debug.profilebegin(ext1(1)) debug.profileend()")
+    \cup Shadow("INJ", "ext1(7)", "8", "ext1(INJ)")
+    \cup Shadow("INJ", "ext1(7)", "8", "ext1(_G.INJ)")
+    \cup Shadow("INJ", "ext1(7)", "8", "ext1(_G[\"INJ\"])")
+    \cup Shadow("_G", GMock, GMock2, "ext1(_G.INJ)")
+    \cup Shadow("_G", GMock, GMock2, "ext1(_G[\"INJ\"])")
+    \cup Shadow("_G", GMock, GMock2, "_G.assert(ext1(3))")     \* aliases of the global are outside the rule: the argument is truthy
+  ELSE {}
+
 Family(name, tier) ==
   CASE name = "unused"   -> UnusedLocals(tier)
     [] name = "removed"  -> RemovedCalls(tier)
@@ -158,12 +204,14 @@ Family(name, tier) ==
     [] name = "method"   -> MethodCalls(tier)
     [] name = "ifexpr"   -> IfExprs(tier)
     [] name = "scope"    -> ScopeShapes(tier)
+    [] name = "shadow16" -> ShadowShapes("c16")
+    [] name = "shadow17" -> ShadowShapes("c17")
     [] OTHER -> {}
 \* which families belong to which group of properties (the rules of the group act on these shapes)
 FamiliesOf(group) ==
   CASE group = "c01" -> {"unused", "ifexpr", "scope"}  \* default rules: unused variables, static evaluation of if-expressions, scope tracking
     [] group = "c06" -> {"compound", "ifexpr"}         \* lowering rules
-    [] group = "c16" -> {"unused", "method", "scope"}  \* group_local_assignment, remove_nil_declaration, remove_method_call, local function conversions
-    [] group = "c17" -> {"removed"}                    \* remove_assertions, remove_debug_profiling
+    [] group = "c16" -> {"unused", "method", "scope", "shadow16"}  \* group_local_assignment, remove_nil_declaration, remove_method_call, local function conversions
+    [] group = "c17" -> {"removed", "shadow17"}                    \* remove_assertions, remove_debug_profiling
     [] OTHER -> {}
 =============================================================================
